@@ -38,7 +38,7 @@ ASSUMPTIONS = [
 
 STRATIFIED = True
 PROPS = ("semi-adapted", "fully-adapted", "bootstrap")
-HASHSEEDS = ("1", "4242", "random", "0")
+HASHSEEDS = ("1", "2", "3", "4242", "random", "7", "12345", "99")
 
 
 @st.composite
@@ -69,14 +69,14 @@ def _case(draw, shard):
         aff = draw(st.sampled_from([None, 0, 3])) if (shard + v) % 3 else (shard + v) % 5
         if heavy and v == 0:
             aff, delays = 2, {}
-        variants.append(dict(hashseed=HASHSEEDS[(shard + v + draw(st.integers(0, 3))) % 4], aff=aff, delays=delays))
+        variants.append(dict(hashseed=HASHSEEDS[(shard * 3 + v + draw(st.integers(0, 7))) % 8], aff=aff, delays=delays))
     return dict(
         rows=rows,
         chains=chains,
         seed=(draw(st.integers(0, 2 ** 31 - 1)) + 7919 * shard) % (2 ** 31),
         proposal=PROPS[shard % 3],
         outlier_prob=[0.7, 0.0, 0.3][(shard // 2) % 3],
-        iters=(200 if heavy else draw(st.integers(3, 8))) if shard % 3 else draw(st.integers(60, 120)),
+        iters=(200 if heavy else draw(st.integers(12, 20))) if shard % 3 else draw(st.integers(60, 120)),
         N=10 if heavy else draw(st.integers(2, 5)),
         subtree_prob=draw(st.sampled_from([0.0, 0.5])),
         conc_update=(shard % 4 != 2),
